@@ -494,16 +494,19 @@ pub proof fn lemma_has_name_insert(taken: Seq<Variable>, x: Variable, n: Seq<cha
     }
 }
 
-/// fresh names (fresh_ok) against a list that has every variable name of the terms: the side conditions of parts_ok
-pub proof fn lemma_fresh_parts(terms: Seq<asp::Term>, names: Seq<String>, taken: Seq<Variable>, variant: Seq<char>)
-    requires fresh_ok(names, taken, variant, terms.len() as nat), forall|k: VKey| terms_in(terms, k) ==> has_name(taken, k.0),
-    ensures
-        distinct_names(names), names.len() == terms.len(),
-        forall|i: int, j: int, k: VKey| 0 <= i < names.len() && 0 <= j < terms.len() && #[trigger] asp_in_term(terms[j], k) ==> k != #[trigger] zkey(names[i]),
+/// number of variable occurrences (an upper bound on the size of the variables() sets)
+pub open spec fn var_occ(t: asp::Term) -> nat
+    decreases t,
 {
-    assert forall|i: int, j: int, k: VKey| 0 <= i < names.len() && 0 <= j < terms.len() && #[trigger] asp_in_term(terms[j], k) implies k != #[trigger] zkey(names[i]) by {
-        assert(terms_in(terms, k));
-        let q = choose|q: int| 0 <= q < taken.len() && (#[trigger] taken[q]).name@ == k.0;
-        assert(names[i]@ != taken[q].name@);
+    match t {
+        asp::Term::PrecomputedTerm(_) => 0,
+        asp::Term::Variable(_) => 1,
+        asp::Term::UnaryOperation { op, arg } => var_occ(*arg),
+        asp::Term::BinaryOperation { op, lhs, rhs } => var_occ(*lhs) + var_occ(*rhs),
     }
+}
+pub open spec fn terms_var_occ(ts: Seq<asp::Term>, n: int) -> nat
+    decreases n,
+{
+    if n <= 0 { 0 } else { terms_var_occ(ts, n - 1) + var_occ(ts[n - 1]) }
 }
